@@ -19,6 +19,7 @@ import GooseVerif.Props.C01Scope
 import GooseVerif.Props.C01Core
 import GooseVerif.Props.C01Heap
 import GooseVerif.Props.C01Coll
+import GooseVerif.Props.C01Fun
 import GooseVerif.Gen.Guards
 import GooseVerif.Expected.Guards
 import GooseVerif.Gen.OpTables
